@@ -296,6 +296,10 @@ def probes(s, limit=40, depth=0):
             out.append(dict((k, _fresh(v[k])) for k in reversed(list(v))))
     for b in _uniq(h["nums"])[:4]:
         out.extend(_num_near(b))
+    for kw in ("multipleOf", "divisibleBy"):
+        dv = s.get(kw)
+        if isinstance(dv, int) and not isinstance(dv, bool) and dv > 0:
+            out += [2 ** 53 + 1, (2 ** 53 + 1) * dv, (2 ** 53 + 1) * dv + 1, 10 ** 20 + 1, float(4 * dv), 4.5 * dv]
     nums = _uniq(h["nums"])
     if len(nums) >= 2:
         a, b = nums[0], nums[1]
